@@ -38,6 +38,15 @@
 (* A definitional oracle `ExpectedSeq(stream)` states what the property    *)
 (* demands for the frames alone; `Faithful` compares the two for every     *)
 (* fragmentation.                                                          *)
+(*                                                                         *)
+(* The protocol version of the connection enters through the frames of     *)
+(* kind "built": real transactions, blocks, compact blocks and segment     *)
+(* responses whose wire size per version is computed here (ObjSize) and    *)
+(* must be what the node's writer produces; the reader decodes with the    *)
+(* same version (ReaderVersion) - the probe constant VersionSkew shows     *)
+(* that the model notices a reader that does not.  Header lists carry      *)
+(* items of different sizes (`mix`), which is why the reader over-reads    *)
+(* BHMAX bytes per header and gives back what the header did not use.      *)
 (***************************************************************************)
 EXTENDS Integers, Sequences, FiniteSets, TLC
 
@@ -154,8 +163,8 @@ ObjSize(o, v) ==
     [] o.kind = "kseg"   -> 32 + SegSize(o, KernelsSize(o.kern, v))
     [] o.kind = "rseg"   -> 32 + SegSize(o, o.nl * (8 + 675))
     [] o.kind = "oseg"   -> 32 + SegSize(o, o.nl * 34) + 32
-\* does the version change the wire form of the object at all?
-VersionFree(o) == \A v \in {1, 2, 3} : ObjSize(o, v) = ObjSize(o, 1)
+    \* output bitmap segment: one block of o.nl chunks with o.ids bits set, written as their positions
+    [] o.kind = "bseg"   -> 32 + 9 + 2 + (1 + 1 + 2 + o.ids * 2) + 8 + o.np * 32 + 32
 \* The protocol version of the connection.  The writer serialises every body with it
 \* (`Msg::new(.., version)`), so the built frames of one stream carry one version; the reader
 \* decodes with the same one (`Codec::new(version, ..)`) unless the probe constant says otherwise.
@@ -163,9 +172,11 @@ WriterVersion(s) == LET vs == {s[i].ver : i \in {j \in 1..Len(s) : s[j].k = "bui
                     IF vs = {} THEN 0 ELSE CHOOSE v \in vs : TRUE
 OneVersion(s) == \A i, j \in 1..Len(s) : (s[i].k = "built" /\ s[j].k = "built") => s[i].ver = s[j].ver
 ReaderVersion(s) == IF VersionSkew > 0 THEN VersionSkew ELSE WriterVersion(s)
-\* what the body decoder of the reader makes of frame f: bytes consumed, -1 = refuses
+\* what the body decoder of the reader makes of frame f: bytes consumed, -1 = refuses.  A reader of
+\* another version reads the object as written iff the two versions give it the same wire form
+\* (here: the same size - the forms differ in the width of every kernel's features and every input)
 NeedAt(s, f) == IF f.k # "built" THEN f.need
-                ELSE IF VerClass(ReaderVersion(s)) = VerClass(f.ver) \/ VersionFree(f.obj) THEN f.need ELSE -1
+                ELSE IF ObjSize(f.obj, ReaderVersion(s)) = f.len THEN f.need ELSE -1
 RECURSIVE StartOf(_, _)
 StartOf(s, i) == IF i = 1 THEN 0 ELSE StartOf(s, i - 1) + FrameSize(s[i - 1])
 Total(s) == IF s = <<>> THEN 0 ELSE StartOf(s, Len(s)) + FrameSize(s[Len(s)])
@@ -189,7 +200,9 @@ FrameClass(f) ==
 \* the frame; any other frame costs at most a constant factor of the bytes it actually carries
 \* (16 covers in-memory items that are larger than their wire form) - never something that
 \* depends on an item COUNT the body merely announces.
-AllocBound(f) == IF FrameClass(f) = "refused" THEN 65536 ELSE 16 * (HDR + f.body) + 65536
+\* An attachment is streamed in chunks: the bytes a read carries are at most one chunk of it.
+AllocBound(f) == IF FrameClass(f) = "refused" THEN 65536
+                 ELSE 16 * (HDR + f.body + (IF f.att < CHUNK THEN f.att ELSE CHUNK)) + 65536
 
 \* Frame constructors used by the model-checking and trace modules
 Frame(k, t, magic, len, body, need, count, items, extra, att) ==
@@ -506,7 +519,10 @@ SeqAgrees(o, e) ==
 \* (1) what was read = what was written, for every fragmentation
 Faithful == (done \/ halted) => SeqAgrees(Visible(stream, out), ExpectedSeq(stream))
 \* every prefix of the results is a prefix of the expectation (nothing spurious on the way)
-PrefixOK == LET v == Visible(stream, out)  e == ExpectedSeq(stream) IN
+\* (`out` only changes in steps that lead to pc = "call" - Return, Timeout, Eof -, so the states with
+\* pc = "call" show every value it takes; the guard only spares the recomputation in between)
+PrefixOK == pc = "call" =>
+            LET v == Visible(stream, out)  e == ExpectedSeq(stream) IN
             \A j \in 1..Len(v) : j <= Len(e) /\ (j < Len(v) => Agree(v[j], e[j]))
 \* (2) the reader is never out of step with the frame boundaries, and no byte taken out of the
 \*     socket is dropped by a read that timed out half-way
@@ -535,6 +551,6 @@ BackToNone == (pc = "call" /\ ~halted /\ want = -1) =>
                  \/ st.tag = "Attachment"   \* left > 0, or a zero-size attachment just announced
 DoneClean == done => st.tag = "None" /\ buf = 0 /\ pos = Total(stream)
 \* more headers are never handed over than the frame carries
-NoInvented == \A j \in 1..Len(Norm(out)) : LET o == Norm(out)[j] IN
-                 o.r = "headers" => o.n <= stream[o.fi].items
+NoInvented == pc = "call" =>
+              LET no == Norm(out) IN \A j \in 1..Len(no) : no[j].r = "headers" => no[j].n <= stream[no[j].fi].items
 =============================================================================
